@@ -558,8 +558,33 @@ Fixpoint dmap {A B} (f : A -> dres B) (l : list A) : dres (list B) :=
 
 Definition frame_of (e : elem) : frame := (e_expns e, e_decls e).
 
-(* root = the document element as built by Handler *)
-Definition get_reply (wt : ctype) (root : elem) : dres pyval :=
+(* the binding style of the operation's output, with what returned_types yields:
+   document/literal wrapped (the wrapper element's type), document/literal bare
+   (the global elements the message parts name), rpc/literal (one PartElement per
+   message part, named like the part, unqualified) *)
+Inductive style :=
+| SWrapped (wt : ctype)
+| SBare (parts : list edecl)
+| SRpc (parts : list edecl).
+
+(* Binding.get_reply after the nodes are selected: none / one / many returned types *)
+Definition outputs (env : list frame) (rts : list rentry) (nodes : list elem) : dres pyval :=
+  match rts with
+  | [] => DOk PNone
+  | [RE d] =>
+      if e_multi d then dbind (dmap (process_top env d) nodes) (fun l => DOk (PList l))
+      else match nodes with
+           | [] => DOk PNone
+           | n :: _ => process_top env d n
+           end
+  | [_] => DOther
+  | _ => composite env rts nodes []
+  end.
+
+(* root = the document element as built by Handler.
+   Document.replycontent: body[0].children when wrapped, body.children when bare;
+   RPC.replycontent: body[0].children *)
+Definition get_reply (st : style) (root : elem) : dres pyval :=
   if negb (el_match [] root s_Envelope uri_env11 || el_match [] root s_Envelope uri_env12) then DOther else
   let envl := if do_promote then promote_node root else root in
   let fe := [frame_of envl] in
@@ -569,29 +594,24 @@ Definition get_reply (wt : ctype) (root : elem) : dres pyval :=
          end) with
   | None => DOther
   | Some body =>
-      match e_kids body with
-      | [] => DOther                                  (* body[0] is None *)
-      | w :: _ =>
-          let env := frame_of w :: frame_of body :: fe in
-          let nodes := e_kids w in
-          let rts := returned_types wt in
-          match rts with
-          | [] => DOk PNone
-          | [RE d] =>
-              if e_multi d then dbind (dmap (process_top env d) nodes) (fun l => DOk (PList l))
-              else match nodes with
-                   | [] => DOk PNone
-                   | n :: _ => process_top env d n
-                   end
-          | [_] => DOther
-          | _ => composite env rts nodes []
+      match st with
+      | SBare parts => outputs (frame_of body :: fe) (map RE parts) (e_kids body)
+      | SWrapped wt =>
+          match e_kids body with
+          | [] => DOther                                  (* body[0] is None *)
+          | w :: _ => outputs (frame_of w :: frame_of body :: fe) (returned_types wt) (e_kids w)
+          end
+      | SRpc parts =>
+          match e_kids body with
+          | [] => DOther
+          | w :: _ => outputs (frame_of w :: frame_of body :: fe) (map RE parts) (e_kids w)
           end
       end
   end.
 
-Definition reply (wt : ctype) (doc : ritem) : dres pyval :=
+Definition reply (st : style) (doc : ritem) : dres pyval :=
   match build doc with
-  | [root] => get_reply wt root
+  | [root] => get_reply st root
   | _ => DOther
   end.
 
